@@ -13,6 +13,9 @@ type expressionStream struct {
 	expression string
 	index      int
 	err        error
+	// removed counts the bytes dropped from expression (before index) by -or-later rewrites,
+	// so that error messages can cite offsets in the caller's original string
+	removed int
 }
 
 type token struct {
@@ -99,7 +102,7 @@ func (exp *expressionStream) parseToken() *token {
 		return identifier
 	}
 
-	errmsg := fmt.Sprintf("unexpected '%c' at offset %d", exp.expression[exp.index], exp.index)
+	errmsg := fmt.Sprintf("unexpected '%c' at offset %d", exp.expression[exp.index], exp.index+exp.removed)
 	exp.err = errors.New(errmsg)
 	return nil
 }
@@ -164,7 +167,7 @@ func (exp *expressionStream) readOperator() *token {
 func (exp *expressionStream) readID() string {
 	id := exp.readRegex("[A-Za-z0-9-.]+")
 	if len(id) == 0 {
-		errmsg := fmt.Sprintf("expected id at offset %d", exp.index)
+		errmsg := fmt.Sprintf("expected id at offset %d", exp.index+exp.removed)
 		exp.err = errors.New(errmsg)
 		return ""
 	}
@@ -217,7 +220,7 @@ func (exp *expressionStream) readLicense() *token {
 
 	// license not found in indices, need to reset index since readID advanced it
 	exp.index = index
-	errmsg := fmt.Sprintf("unknown license '%s' at offset %d", license, exp.index)
+	errmsg := fmt.Sprintf("unknown license '%s' at offset %d", license, exp.index+exp.removed)
 	exp.err = errors.New(errmsg)
 	return nil
 }
@@ -265,6 +268,7 @@ func (exp *expressionStream) normalizeLicense(license string) *token {
 			exp.expression = newExpression
 			// update index to remove `-or-later`; now pointing at the `+` operator
 			exp.index -= len("-or-later")
+			exp.removed += len("-or-later") - len("+")
 
 			return token
 		}
